@@ -21,15 +21,16 @@ import (
 )
 
 type retroGraph struct {
-	cfg     tak.Config
-	index   map[string]int32
-	succOff []int32 // CSR: successors of v are succ[succOff[v]:succOff[v+1]]
-	succ    []int32
-	term    []int8     // 0 not finished, 1 White won, 2 Black won, 3 draw
-	white   []bool     // White to move
-	dist    [2][]int32 // [0]: attacker White, [1]: attacker Black
-	edges   int
-	sample  []*tak.Position // every sampleEvery-th unfinished position in breadth-first order (0: none)
+	cfg      tak.Config
+	index    map[string]int32
+	succOff  []int32 // CSR: successors of v are succ[succOff[v]:succOff[v+1]]
+	succ     []int32
+	term     []int8     // 0 not finished, 1 White won, 2 Black won, 3 draw
+	white    []bool     // White to move
+	dist     [2][]int32 // [0]: attacker White, [1]: attacker Black
+	edges    int
+	sample   []*tak.Position // every sampleEvery-th unfinished position in breadth-first order (0: none)
+	finished []*tak.Position // likewise for finished positions
 }
 
 // retroKey identifies a position of the game graph: board contents and side to move.  (Reserves
@@ -90,6 +91,9 @@ func buildRetro(root *tak.Position, maxNodes int, sampleEvery int) *retroGraph {
 		queue[head] = nil
 		g.succOff = append(g.succOff, int32(len(g.succ)))
 		if g.term[head] != 0 {
+			if sampleEvery > 0 && head%sampleEvery == 0 {
+				g.finished = append(g.finished, p)
+			}
 			continue
 		}
 		if sampleEvery > 0 && head%sampleEvery == 0 {
